@@ -26,6 +26,8 @@ pub struct Made {
     pub follow: Vec<Option<u32>>,
     pub case_differs: Vec<bool>,
     pub plain_names: Vec<bool>,
+    /// The services carry a subtype although the parent type is what is browsed.
+    pub sub_unbrowsed: bool,
 }
 
 /// Enumerates the ways to split `n` items (already ordered) into up to `k` non-empty consecutive groups.
@@ -79,6 +81,8 @@ pub fn scenario(seed: u64, enumerated: Option<(u64, u64)>) -> Made {
     let t0 = w.now();
     w.set_ip_check_interval(h, 3600);
     let with_sub = enumerated.is_none() && rng.chance(1, 5);
+    // the services have a subtype, but the parent type is what is browsed (their announcements list both PTRs)
+    let sub_unbrowsed = !with_sub && (enumerated.is_none() && rng.chance(1, 4) || enumerated.is_some_and(|(a, _)| a % 3 == 1));
     let browse_chan = w.browse(h, if with_sub { "_sub1._sub._t._udp.local." } else { browser::TY });
     let n_svcs = if enumerated.is_some() { 1 } else { 1 + rng.usize(3) };
     let mut svcs = Vec::new();
@@ -99,7 +103,7 @@ pub fn scenario(seed: u64, enumerated: Option<(u64, u64)>) -> Made {
         };
         let host = format!("Host{i}.local");
         let mut s = Svc::new(browser::TY, &label, &host, [10, 0, 0, 30 + i as u8]);
-        if with_sub {
+        if with_sub || sub_unbrowsed {
             s.subtype = Some(wire::name("_sub1._sub._t._udp.local"));
         }
         if enumerated.is_none() && rng.chance(1, 3) {
@@ -115,7 +119,7 @@ pub fn scenario(seed: u64, enumerated: Option<(u64, u64)>) -> Made {
         case_differs.push(enumerated.is_none() && rng.chance(1, 6));
         plain_names.push(plain);
     }
-    let mut desc = format!("{:?} dual={dual} sub={with_sub} svcs={n_svcs}", w.stepping);
+    let mut desc = format!("{:?} dual={dual} sub={with_sub} sub_unbrowsed={sub_unbrowsed} svcs={n_svcs}", w.stepping);
     w.run_for(rng.below(700));
     let src = scen::peer4(30);
     let foreign = |rng: &mut Rng| -> Record {
@@ -217,6 +221,18 @@ pub fn scenario(seed: u64, enumerated: Option<(u64, u64)>) -> Made {
                     m.additionals.push(foreign(&mut rng));
                 }
             }
+            // PTR records of types nobody browses, in the answer section: a responder announcing two types at once, or the
+            // subtype PTR of an announcement while the parent type is browsed. One PTR answer of the browsed type makes the
+            // packet ours wherever it stands; a packet whose PTR answers are all foreign is "someone else's" and is kept out.
+            let browsed_name: Name = if with_sub { s.subtype.clone().unwrap() } else { s.ty.clone() };
+            let ours_in_answers = m.answers.iter().any(|r| r.rtype == wire::T_PTR && wire::names_eq_exact(&r.name, &browsed_name));
+            if !ours_in_answers {
+                m.answers.retain(|r| r.rtype != wire::T_PTR || wire::names_eq_exact(&r.name, &browsed_name));
+            } else if enumerated.is_none() && rng.chance(1, 3) {
+                let stranger = wire::ptr(&wire::name("_other._udp.local"), 4500, &wire::name("thing._other._udp.local"));
+                let at = rng.usize(m.answers.len() + 1);
+                m.answers.insert(at, stranger);
+            }
             if enumerated.is_none() && rng.chance(1, 6) {
                 // a duplicate of the same packet
                 w.inject_msg(h, 2, src, &m);
@@ -235,6 +251,7 @@ pub fn scenario(seed: u64, enumerated: Option<(u64, u64)>) -> Made {
         follow,
         case_differs,
         plain_names,
+        sub_unbrowsed,
     }
 }
 
@@ -258,7 +275,7 @@ pub fn monitor(made: &Made, l: &mut Local) {
         let escaped_spelling = wire::escaped(&s.inst);
         let is_me = |name: &str| name == plain_spelling || name == escaped_spelling;
         // when is the instance complete? (lives by the model; host compared case-insensitively)
-        let browsed: Name = s.subtype.clone().unwrap_or_else(|| s.ty.clone());
+        let browsed: Name = if made.sub_unbrowsed { s.ty.clone() } else { s.subtype.clone().unwrap_or_else(|| s.ty.clone()) };
         let ptr: Vec<(u64, u64)> = hist
             .lives_of(|id| id.rtype == wire::T_PTR && wire::names_eq_exact(&id.name, &browsed) && matches!(&id.rdata, wire::RData::Ptr(t) if wire::names_eq_exact(t, &s.inst)))
             .map(|(_, l)| (l.from, l.until))
